@@ -283,6 +283,17 @@ def run(ctx: Ctx) -> None:
     ctx.check(transient, "RF-ABS", "resolver-failure-not-definitive", on_post, None, ok=f"an unexpected resolver failure surfaces as {'raised ' + str(boom.raised) if boom.raised else boom.status} (5xx)",
               bad=f"an unexpected resolver failure is answered {boom.status} (definitive, cacheable)")
 
+    # an unexpected resolver failure commonly names the credential (`KeyError(token)` from a table lookup): whatever the
+    # endpoint turns it into must not carry the exception text to the caller.  A non-HTTP exception left to Falcon is a
+    # generic 500 without the message (framework fact A.5); an HTTP error built here renders its title/description.
+    leak = run_post(ctx, box, body=good_body, resolver=Raised("KeyError", KeyError(TOKEN)))
+    rendered = repr((leak.status, leak.data, leak.content_type, leak.headers))
+    if leak.raised is not None and str(leak.raised).startswith("HTTP"):
+        rendered += repr((getattr(leak.raised_obj, "__dict__", None), str(leak.raised_obj)))
+    ctx.check(TOKEN not in rendered, "RF-TAINT", "credential-never-echoed:resolver-failure", on_post, None,
+              ok="an unexpected resolver failure that names the credential (KeyError(token)) is not rendered into the response",
+              bad=f"a resolver failure whose message names the credential is rendered to the caller ({'raised ' + str(leak.raised) if leak.raised else leak.status}): the subject credential appears in the response")
+
     # ------------------------------------------------------------------ success body
     okr = run_post(ctx, box, body=good_body, resolver=lambda t: ident(300))
     body_ok = False
